@@ -242,6 +242,8 @@ def ancestors(prog, nid, byid=None):
 
 
 def is_ambiguous(prog):
+    if any(r.get('recseq') for r in prog.get('runs', ())):
+        return True      # bodies that are not functions of their arguments: no reference value
     """a node outside a recurrent sub-graph reads a node strictly inside it (DESIGN 4.2), or a
     recurrent start is shared by several destinations: pure dataflow does not determine a value"""
     byid = node_by_id(prog)
